@@ -30,6 +30,9 @@ def value_sets(tier):
         "symbol-plain": ("x:symbol", [esc_sym(s) for s in sym_values(["a", "b", " ", "-", "_", "1"], n) if s != ""]),
         "symbol-special": ("x:symbol", [esc_sym(s) for s in sym_values(["a", '"', ",", "[", "]", "\\", " ", "'", "|", ";"], n) if s != ""]),
         "symbol-ws": ("x:symbol", [esc_sym(s) for s in sym_values(["a", "\t", "\n", '"', ","], n) if s != ""]),
+        # symbols with embedded line breaks of both kinds (every sequence of up to 4 tokens from a, CRLF, LF, CR)
+        "symbol-linebreaks": ("x:symbol", [esc_sym("".join(t)) for k in range(1, 5) for t in itertools.product(["a", "\r\n", "\n", "\r"], repeat=k)]),
+        "two-columns-linebreaks": ("x:symbol, y:symbol", ['%s, %s' % (esc_sym(a), esc_sym(b)) for a in ("p\r\nq", "p\nq", "p") for b in ("u\nv", "u\r\nv", "u", "\r\n")]),
         "two-columns": ("x:symbol, y:number", ['%s, %d' % (esc_sym(s), i) for i, s in enumerate(["", "a", "a b", "x,y", 'q"q', "", "[1]"])]),
         "record": ("x:Pr", ['nil', '[0, "a"]', '[-1, "b c"]', '[2147483647, ""]', '[7, "x_y"]']),
         "nested-record": ("x:Nn", ['nil', '[nil, 1]', '[[1, "a"], 2]', '[[-5, "k"], -2147483647]']),
@@ -53,6 +56,9 @@ FORMATS = {
 
 # values a plain delimited text format cannot represent: the delimiter itself / line breaks (two-columns contains "x,y": fine for tab)
 NOT_REPRESENTABLE = {
+    ("tab", "symbol-linebreaks"), ("headers", "symbol-linebreaks"), ("gzip", "symbol-linebreaks"), ("pipe", "symbol-linebreaks"), ("comma", "symbol-linebreaks"),
+    ("tab", "two-columns-linebreaks"), ("headers", "two-columns-linebreaks"), ("gzip", "two-columns-linebreaks"), ("pipe", "two-columns-linebreaks"),
+    ("comma", "two-columns-linebreaks"),
     ("tab", "symbol-ws"), ("headers", "symbol-ws"), ("gzip", "symbol-ws"), ("pipe", "symbol-ws"), ("pipe", "symbol-special"),
     ("comma", "symbol-special"), ("comma", "symbol-ws"), ("comma", "two-columns"),
     # records and ADTs print with ", " between their fields: not representable with ',' as the column delimiter (without RFC 4180 quoting)
@@ -155,7 +161,7 @@ def check(tier):
     rep.set("distinct_nontrivial", len(jobs))
     rep.set("combinations_outside_what_the_format_can_represent", skipped)
     rep.sample({"types": list(vs_.keys()), "formats": list(FORMATS.keys()), "example_values": vs_["symbol-special"][1][5:12]})
-    rep.set("rule", "11 value sets (numeric extremes, floats needing 9 digits, all strings up to length %d over plain / special / whitespace alphabets, "
+    rep.set("rule", "13 value sets (numeric extremes, floats needing 9 digits, symbols with CRLF / LF / CR line breaks in every order, all strings up to length %d over plain / special / whitespace alphabets, "
             "records incl. nil and nesting, ADTs, mixed) x 9 formats (tab, ',', '|', RFC 4180, headers, gzip, JSON list/object, SQLite) minus the "
             "combinations a plain delimited format cannot represent (delimiter or line break inside a symbol); non-trivial = all" % (2 if tier == "quick" else 3))
     shutil.rmtree(wd, ignore_errors=True)
